@@ -494,7 +494,7 @@ def enum_small() -> list[dict]:
 
 # ---------------------------------------------------------------- entry
 # bit 1 = dedup_total (model bound of the suffix search; F07a is fixed), bit 2 = no operation skipped
-GUARDS = {2: "F07f", 5: "F07e"}   # bit 3 was F07c, bit 4 was F07d (both fixed; bit 4 still = every tag attribute is an identifier)
+GUARDS = {5: "F07e"}   # bit 2 (no operation skipped; F07f) is fixed: generation now fails instead   # bit 3 was F07c, bit 4 was F07d (both fixed; bit 4 still = every tag attribute is an identifier)
 
 
 def main(chk: Check, replay: dict | None = None) -> int:
